@@ -217,9 +217,13 @@ func (v *V2) RecoverIndex(buf []byte, startFileOffset uint32, baseEntryOffset in
 		if payloadSize, _, payloadCrc, err = v.ReadHeaderWithValidation(buf, newFileOffset); err != nil {
 			if errors.Is(err, ErrEmptyPayload) {
 				// we might read the end of the segment.
-				if commitOffset != nil && currentEntryOffset <= *commitOffset && !isZeroed(buf[newFileOffset:]) {
+				if (commitOffset == nil || currentEntryOffset <= *commitOffset) && !isZeroed(buf[newFileOffset:]) {
 					// The log cannot end at or below the commit offset while data
-					// follows: the size field of a committed entry was zeroed
+					// follows: the size field of a committed entry was zeroed.
+					// Without a commit offset (the index of a closed segment is being
+					// rebuilt, offline tools) nothing may be discarded, as for any other
+					// corruption below: stopping here would leave a short index and the
+					// records behind it unreachable although the segment is served
 					return nil, 0, 0, 0, errors.Wrapf(ErrDataCorrupted,
 						"entryOffset: %d: empty size field followed by data", currentEntryOffset)
 				}
